@@ -3,3 +3,4 @@ import FormulaicVerif.Engines
 import FormulaicVerif.Gen.OperatorTable
 import FormulaicVerif.Gen.Names
 import FormulaicVerif.Gen.KindTable
+import FormulaicVerif.Gen.Plumbing
